@@ -1435,6 +1435,17 @@ class Run:
         if self.amplified:
             self.flags['amplified_history'] += 1
             self.flags['amplified_%s' % self.case['amp'][0]] += 1
+        self.neighbour = None
+        if 'lifecycle' in self.checks and len(self.case['ops']) % 2 == 0:
+            # another world lives next to the one under test (a level that was switched out): dispatching disabled,
+            # one handler component whose on_add is postponed.  Whatever happens to the world under test, that
+            # callback stays postponed there and is delivered - once - when THAT world is enabled at the end
+            self.neighbour = desper.World()
+            self.neighbour.dispatch_enabled = False
+            self.neighbour_log = []
+            self.neighbour_comp = _NeighbourComp(self.neighbour_log)
+            self.neighbour_entity = self.neighbour.create_entity(self.neighbour_comp)
+            self.flags['neighbouring_world_with_a_postponed_callback'] += 1
         try:
             self.after_step(full=True)
             late_at = min(len(self.case['ops']), n) // 2
@@ -1460,9 +1471,36 @@ class Run:
                 self.flags['amplified_aborted'] += 1
         finally:
             RecBase._observer = None
+        if self.neighbour is not None:
+            if self.neighbour_log:
+                self.viol('postponed_callback_of_another_world_was_delivered_while_that_world_was_disabled',
+                          got=[k for k, _a in self.neighbour_log])
+            try:
+                self.neighbour.dispatch_enabled = True
+            except PropertyViolation:
+                raise
+            except Exception as exc:
+                self.viol('enabling_the_neighbouring_world_raised', exception=repr(exc))
+            got = [(k, a[0] == self.neighbour_entity and a[1] is self.neighbour) for k, a in self.neighbour_log]
+            if got != [('on_add', True)]:
+                self.viol('postponed_callback_of_another_world_not_delivered_exactly_once_when_it_was_enabled',
+                          got=repr(self.neighbour_log)[:300])
         if has_diamond(self.classes):
             self.flags['diamond'] += 1
         return self
+
+
+class _NeighbourComp:
+    __events__ = {'on_add': 'on_add', 'on_remove': 'on_remove'}
+
+    def __init__(self, log):
+        self.log = log
+
+    def on_add(self, *a):
+        self.log.append(('on_add', a))
+
+    def on_remove(self, *a):
+        self.log.append(('on_remove', a))
 
 
 def info_from(run, nontrivial, extra_classes=()):
